@@ -3,7 +3,7 @@ import PanqecVerif.Model.Lattices.Color666PlanarCode
 open Panqec
 
 /-! `lat Color666PlanarCode <Lx> <Ly> qubits|stabs|stab <coord>|logx|logz|axis <coord>|
-    type <coord>|deform <name> <coord>|hmat|lxmat|lzmat|n|k` -/
+    type <coord>|deform <name> <coord>|hmat|lxmat|lzmat|rankfamily|n|k` -/
 namespace Drv
 
 def color666PlanarCodeModel (Lx Ly : Nat) : ColorModel where
@@ -12,6 +12,8 @@ def color666PlanarCodeModel (Lx Ly : Nat) : ColorModel where
   stabilizerType := Color666PlanarCode.stabilizerType Lx Ly
   qubitAxis := Color666PlanarCode.qubitAxis
   getDeformation := Color666PlanarCode.getDeformation
+  -- the family of `C01Color666PlanarCode.generators_independent` is `(lattice Lx Ly).stabs`, i.e. this list
+  rankFamily := fun _ => some (Color666PlanarCode.stabs Lx Ly)
 
 def handleLatColor666PlanarCode : List String → Option String
   | "lat" :: "Color666PlanarCode" :: lx :: ly :: rest =>
